@@ -435,6 +435,14 @@ func c06Cases(c *Ctx, w *prove.World, wt wireType, m, u *ssa.Function) {
 			}
 			continue
 		}
+		if _, have := encCase[k]; !have && len(encCase) == 0 {
+			// Marshal has no per-format branch at all (the layout is chosen some other
+			// way: flags returned by a helper, a table): the per-format layout is not read off it
+			for _, rule := range []string{"extract", "sym"} {
+				c.NotDecided(rule, key, pos, "Marshal has no `BufferFormat == "+k+"` branch whose result could be read as this format's layout (the layout is selected by a helper or a table)")
+			}
+			continue
+		}
 		enc := encCase[k]
 		dec := append(append([]codec.Atom{}, common...), decCase[k]...)
 		for i := range dec {
